@@ -66,6 +66,8 @@ CallDone ==
   /\ UNCHANGED <<srv, cli, lastop>> /\ Step
 DialClosed == Is("DialClosed") /\ ~Ev.working /\ UNCHANGED <<srv, cli, lastop>> /\ Step
 \* CallHang, DialHang, CloseHang are never accepted (Stuck / SetupFailed are harness notes: what led to them was judged before)
+\* (SwapLost -- an entry stored in a session's swap by one of several goroutines is gone -- is information for the race
+\*  check C14, which runs the same histories under the race detector; it is not a matter of C07 and is skipped here)
 Known == {"Reset", "Op", "SlotProbe", "Probe", "CallDone", "DialClosed", "CallHang", "DialHang", "CloseHang"}
 Skip == l <= N /\ Ev.ev \notin Known /\ UNCHANGED <<srv, cli, lastop>> /\ Step
 Next == Reset \/ Op \/ SlotProbe \/ Probe \/ CallDone \/ DialClosed \/ Skip
